@@ -14,6 +14,11 @@ type StageSpec struct {
 	Allow  bool       `json:"allow,omitempty"`
 	Cond   string     `json:"cond,omitempty"` // "", "true", "false", "missing"
 	Nested *GraphSpec `json:"nested,omitempty"`
+	Task   string     `json:"task,omitempty"` // INTEG: name of the task this stage runs (default: the stage's own name)
+	// INTEG/C08: per-stage overrides
+	Env  map[string]string `json:"env,omitempty"`
+	Vars map[string]string `json:"vars,omitempty"`
+	Dir  string            `json:"dir,omitempty"`
 }
 
 type GraphSpec struct {
